@@ -103,7 +103,7 @@ def check_dispatch(ctx, prog):
         if op == 'dec':
             return (acc, incs, hand, order + 'D', st[4])
         return st
-    reached, _ = cfgm.dataflow(cfg, (False, 0, 0, '', 0), step)
+    reached, _ = cfgm.dataflow(cfg, (False, 0, 0, '', 0), cfgm.follow_helpers(prog, f, step))
     ctx.evaluations += sum(len(v) for v in reached.values())
     # states at the loop back edge / exit: every accepted socket handed over exactly once, with order I..S C D or I..T
     finals = set()
@@ -129,7 +129,7 @@ def check_dispatch(ctx, prog):
     ctx.analysed(g)
     order = ''
     last_server_use = None
-    for e in fn_exprs(g):
+    for e in q.fn_exprs_inlined(prog, g):
         if is_serve(e):
             order += 'S'
         elif is_close(e):
@@ -138,9 +138,17 @@ def check_dispatch(ctx, prog):
             order += 'D'
         elif counter_op(e) == 'inc':
             order += 'I'
-    seq = list(fn_exprs(g))
+    seq = list(q.fn_exprs_inlined(prog, g))
     dec_pos = [i for i, e in enumerate(seq) if counter_op(e) == 'dec']
-    after = [e for e in seq[dec_pos[-1] + 1:] if e.get('k') == 'mem' and e.get('f') == '_server' and e.get('l', 0) > seq[dec_pos[-1]].get('l', 0)] if dec_pos else []
+    in_dec = set(id(x) for x in walk_expr(seq[dec_pos[-1]])) if dec_pos else set()
+    srv_params = set()
+    for h_ in prog.functions:
+        # a helper that receives the server as a parameter: uses of that parameter are uses of the server
+        if h_.get('body') and h_.get('file') == g.get('file'):
+            for p_ in h_['params']:
+                if 'SocketServer' in (T(h_, T(h_, p_['t']).get('to') or p_['t']).get('s') or ''):
+                    srv_params.add(p_['id'])
+    after = [e for e in seq[dec_pos[-1] + 1:] if id(e) not in in_dec and ((e.get('k') == 'mem' and e.get('f') == '_server') or (e.get('k') == 'var' and e.get('id') in srv_params))] if dec_pos else []
     ctx.check(order == 'SCD', 'C14.dispatch', g['pq'], 'handler:serve, close, decrement once each in order', fwhere(g), 'serve -> close -> decrement',
               'the handler thread performs %s (S=serve, C=close, D=decrement, I=increment) instead of exactly serve, close, decrement' % (order or 'nothing'))
     ctx.check(bool(dec_pos) and not after, 'C14.dispatch', g['pq'], 'handler:decrement is the last access to the server', fwhere(g), 'no use of _server after the decrement',
